@@ -1,0 +1,6 @@
+//go:build !verif
+
+package nodis
+
+// verifPoint marks a schedule point of the verification harness; it does nothing in a normal build.
+func verifPoint(string) {}
